@@ -123,6 +123,6 @@ def gen_seq_cases(seed, ncases, types, orders, scale=1.0):
 def write_cases(cases, path):
     with open(path, "w") as f:
         for c in cases:
-            f.write("CASE %s type=%s order=%d\n" % (c["id"], c["type"], c["order"]))
+            f.write("CASE %s type=%s order=%d%s\n" % (c["id"], c["type"], c["order"], " nodump=1" if c.get("nodump") else ""))
             f.write("KEYS %s\n" % " ".join(c["keys"]))
             f.write("OPS %s\n" % ";".join(c["ops"]))
